@@ -6,45 +6,72 @@ PROP = {
     "rule": "delims: abstract token-level templates (items: text, object(args, hyphens), tag(name, args, hyphens), with the white "
             "space inside the delimiters recorded) are spelled twice - with custom delimiters d for an engine configured by "
             "Engine.Delims(d...) and with the defaults for a default engine - and both sources are run through the real engine and "
-            "the model. Delimiter sets: every GoodDelims quadruple (distinct, mutually non-prefixing) of one-byte strings over "
-            "< > [ ] | ! (360, several templates each) and over $ # @ ( ) (120); every quadruple with lengths <= 2 over the first "
-            "alphabet in thorough (about 2.1 million, sharded, one short template each; a sample of 400 in quick); random quadruples "
-            "with lengths mostly 3..4 over both alphabets; every subset of positions replaced by \"\" (16 variants per base "
-            "quadruple). Templates come from a token-level generator (objects with filters, indexing and literals, assign, "
+            "the model. Delimiter sets: every harness-GoodDelims quadruple (distinct, mutually non-prefixing) of one-byte strings over "
+            "< > [ ] | ! (360, 6 templates each, 12 in thorough) and over $ # @ ( ) (120); every quadruple with lengths <= 2 over the first "
+            "alphabet in thorough (2,106,720, sharded, one short template each; a random sample of 4000 in quick); 4000 (thorough 40000) "
+            "random quadruples with lengths mostly 3..4 over both alphabets; 1500 (15000) random quadruples of lengths mostly 2..3 over "
+            "< > - ~ ( in which some delimiter contains a hyphen or a parenthesis, no hyphen on the edge that faces the inside of the "
+            "tag (those with a hyphen are outside the Lean GoodDelims: stream only); every subset of positions replaced by \"\" (16 variants for each of 250 "
+            "(2500) base quadruples). Templates come from a token-level generator (objects with filters, indexing and literals, assign, "
             "if/elsif/else, unless, for with modifiers/else/break/continue, case/when, capture, raw, comment, cycle, hyphens on "
             "either side, tokens spread over several lines, and one construct that fails at parse or render time) and are kept "
-            "only if Clean for d and for the defaults. Oracle (real engine only): output / error kind / LineNumber / path / cause "
-            "under d equal those under the defaults; bodies of raw blocks that contain tokens are compared modulo re-spelling; the "
-            "strings {{ }} {% %} placed in text survive verbatim under fully custom d.",
+            "only if harness-Clean for d and for the defaults. Oracle (real engine only): output / error kind / LineNumber / path / cause "
+            "under d equal those under the defaults (clause custom-eq-default); bodies of raw blocks that the generator filled with "
+            "object/tag items are literal bytes as spelled and are compared modulo re-spelling; in 2000 (12000) further cases the "
+            "strings {{ }} {% %} placed in text survive verbatim under fully custom d (default-delims-are-text); five fixed sequences "
+            "of several Engine.Delims calls must render as an engine configured by the last call alone (empty-string-selects-default; "
+            "shard 0, real engine only, the model has no history of configuration calls).",
     "trusted_base": COMMON_TB + ["the harness's own spell/unspell/Clean (harness/tokitems.go) define which sources count as 'the same template'"],
-    "assumptions": ["Clean(d, items): every occurrence of a delimiter of d in the spelled source lies inside a delimiter that spell "
+    "assumptions": ["harness Clean(d, items) (harness/tokitems.go; decides which templates the delims stream keeps): every occurrence "
+                    "of a delimiter of d in the spelled source lies inside a delimiter that spell "
                     "wrote; arguments are non-empty for objects, do not begin or end with white space or '-', and a tag's arguments "
                     "do not END in a proper prefix of the tag-right delimiter (with the defaults: `{% assign x = y %%}` is not a tag "
                     "either - the argument pattern consumes `%` only together with the byte after it)",
-                    "delimiters are ASCII punctuation"],
+                    "Lean Clean d items (= CleanFrom d none items, Proofs/E2ESpell.lean; hypothesis of the theorems) is a different "
+                    "predicate and neither contains the other. Narrower: texts are non-empty and not adjacent; a tag WITHOUT "
+                    "arguments has at most one white-space byte before its closing delimiter and none before a right trim marker "
+                    "(`{% endif -%}` is outside). Wider: only an opening delimiter beginning inside a text and a closing delimiter "
+                    "before its own position are excluded (not every stray delimiter occurrence); arguments may begin with '-' "
+                    "after white space or a trim marker; after a tag named raw or comment a text item is the block's body and may "
+                    "hold ANY bytes in which no end tag of the block begins. The harness writes tokens inside a raw body as items "
+                    "(re-spelled with d, hence compared modulo re-spelling); for the theorem such a body is one text item with the "
+                    "same bytes under both delimiter sets",
+                    "delimiters are ASCII punctuation. Lean GoodDelims: four non-empty strings of ASCII bytes that are not white "
+                    "space, word characters or '-', any length, only the two OPENING delimiters mutually non-prefixing; harness "
+                    "GoodDelims: any bytes, lengths 1..4, all four strings mutually non-prefixing"],
 }
 
 TEXT = {
-    "text": ('Main theorem, over ALL templates and ALL good delimiter sets (Proofs.C19E2E): a template is a list of abstract items '
+    "text": ('Main theorem, over ALL good delimiter sets and ALL item lists that are Clean for them (Proofs.C19E2E): a template is a list of abstract items '
               '(text / object / tag with hyphens and inner white space, Proofs.E2ESpell), `spell d items` writes it with the '
               'delimiters d and `tokensOf d items line` is the token list it denotes. For every delimiter quadruple satisfying '
               'GoodDelims (non-empty strings of ASCII punctuation other than - and _, neither opening delimiter a prefix of the '
               'other) and every item list satisfying the decidable predicate Clean d, the tokenizer - token pattern, '
-              'leftmost-first backtracking matcher with its lazy loops, hyphen detection, line counting - returns exactly '
+              'leftmost-first backtracking matcher with its lazy loops, the lexical skip of raw/comment bodies, hyphen detection, '
+              'line counting - returns exactly '
               '`tokensOf d items line` on `spell d items` (scan_spell; by induction over the matcher: objRe_m, tagRe_m, '
-              'lazyUnits, scanLoop_spell). Hence the token lists of two spellings are equal up to the source field of tag and '
+              'lazyUnits, lexSkip_first/lexSkip_noEnd, scanLoop_spell). Hence, for an item list that is Clean for BOTH delimiter '
+              'sets, the token lists of the two spellings are equal up to the source field of tag and '
               'object tokens (tokens_equal_up_to_source), and, because the block parser and the compiler do not read that '
               'field - in a raw block only the sources of texts and trim markers, which do not depend on the delimiters '
-              '(parseTokens_unsrc, compileList_unsrc) -, for templates whose raw blocks are closed (RawClosed: a raw tag is followed, '
-              'at once or after one text item holding the body, arbitrary bytes, by an endraw tag) the '
+              '(parseTokens_unsrc, compileList_unsrc) -, for templates that in addition are RawClosed (every tag named raw is followed, '
+              'at once or after ONE text item - the body, arbitrary bytes -, by a tag named endraw) the '
               'compiled templates are EQUAL (spellings_compile_equal), so `run` of an engine with custom delimiters on the '
-              'custom spelling is the run of the template compiled from the default spelling (run_custom_spelling_eq_default). '
+              'custom spelling is what the SAME engine configuration returns for the template compiled from the default spelling '
+              'with the default delimiters (run_custom_spelling_eq_default). '
               'Since the repair fixes/raw-comment-lexical the body of a raw or comment block is one text token - literal bytes, the '
-              'same under every delimiter set - and the equivalence covers raw blocks; still excluded (counterexample recorded): '
-              'a raw tag without a lexical end tag whose block the parser closes at `endraw` WITH arguments. Clean also excludes three real quirks of the token pattern, each recorded as an evaluated example: '
-              '`{% else  %}` has arguments " ", `{% else -%}` has arguments "-" AND a right trim marker, `{% if x%%}` is text. '
-              'Further theorems: Delims("","","","") selects the defaults, position by position; a list that is not four entries selects '
-              'the defaults; the delimiters used are never empty (delims_*); a trim marker is emitted exactly when the byte next '
+              'same under every delimiter set (Clean admits any body bytes in which no end tag of the block begins) - and the '
+              'equivalence covers raw blocks; excluded by RawClosed: a raw tag with no lexical end tag ahead that is not followed, '
+              'at once or after one text, by a tag named endraw - an unterminated raw block (equivalence not proved) or a block '
+              'the parser closes at `endraw` WITH arguments after objects or tags (equivalence false: the body is the token '
+              'sources as spelled; counterexample `{% raw %}{{ x }}{% endraw y %}` recorded). Clean also excludes three real '
+              'behaviours of the token pattern, each recorded as an evaluated example: '
+              '`{% else  %}` has arguments " ", `{% else -%}` has arguments "-" AND a right trim marker, `{% if x%%}` is text - '
+              'so an argument-less tag with white space before a right trim marker (`{% endif -%}`) or with more than one blank '
+              'before its closing delimiter is outside the theorem. '
+              'Further theorems: Delims("","","","") selects the defaults (delims_all_empty), position by position '
+              '(delims_default_per_position); a list that is not four entries selects '
+              'the defaults (delims_wrong_arity); the delimiters used are never empty (delims_nonempty); a trim marker is emitted exactly when the byte next '
               "to the configured delimiter is a hyphen, relative to that delimiter's length (hyphen_detection_obj/tag); the C05 "
               'partition and line theorems hold for every delimiter list (custom_delims_partition); a source containing none of '
               'the configured opening delimiters is one text token, so default-delimiter tags are ordinary text under custom '
@@ -52,8 +79,22 @@ TEXT = {
               "default delimiters, answers both by the model and the real engine, and compares the real engine's two results with "
               'each other.'),
     "design_ref": 'DESIGN.md 6 C19',
-    "note": NOTE + ('The equivalence theorem requires RawClosed (raw blocks closed by their lexical end tag) and is stated for compilation and for `run` with the same '
-              'engine configuration on both sides (included files are read with the engine\'s own delimiters).'),
+    "note": NOTE + ('The equivalence theorems (spellings_compile_equal, run_custom_spelling_eq_default) need: GoodDelims (ASCII, no - or _; '
+              'delimiters containing a hyphen are covered by the delims stream only); Clean for BOTH delimiter sets; RawClosed; and '
+              'are stated for compilation and for `run` with the same '
+              'engine configuration on both sides (included files are read with the engine\'s own delimiters), not for a default '
+              'engine on the right-hand side. Shapes outside Clean: an opening delimiter beginning inside a text (also one completed '
+              'by the following bytes), empty or adjacent texts; a closing delimiter inside the arguments; an object without '
+              'arguments; arguments that begin with white space, end with white space or -, or (object, directly after the opening '
+              'delimiter) begin with -; tag arguments that end in a non-empty prefix of the tag-right delimiter (`{% if x%%}`); a tag '
+              'WITHOUT arguments with more than one white-space byte before its closing delimiter (`{% else  %}`) or with white space '
+              'before a right trim marker (`{% endif -%}`, `{% else -%}`: the hyphen is read as arguments "-" AND as a trim marker); '
+              'after a raw/comment tag with an end tag of the block ahead, anything but one body text (or nothing) before that end '
+              'tag: objects or tags inside such a body must be written as bytes of the body text. '
+              'Shapes outside RawClosed: an unterminated raw block (not proved) and a raw block closed only by `endraw` with '
+              'arguments after objects or tags (false, counterexample in Proofs/C19E2E.lean). The Lean Clean/GoodDelims are not the '
+              'harness Clean/GoodDelims of harness/tokitems.go (see Assumptions): `{% endif -%}` may occur in the delims stream and '
+              'is then covered by the stream, not by the theorem.'),
     "technique": ('Lean 4 proof (induction over the backtracking matcher on the token pattern, for all good delimiter sets; tokenizer '
               'lemmas generic in the delimiter list) + model/implementation correspondence + metamorphic '
               'oracle (custom vs default spelling)'),
